@@ -16,6 +16,8 @@
 use crate::common::*;
 #[path = "c04_bolt3.rs"]
 mod bolt3;
+#[path = "c04_parse.rs"]
+mod parse;
 use bolt3::*;
 use lightning_signer::lightning::sign::ChannelSigner;
 use lightning_signer::bitcoin::absolute::LockTime;
@@ -918,6 +920,40 @@ fn htlc_sighash(tx: &Transaction, redeem: &ScriptBuf, amount: u64, acp: bool) ->
     SighashCache::new(tx).p2wsh_signature_hash(0, redeem, Amount::from_sat(amount), ty).ok().map(|h| h.to_byte_array())
 }
 
+/// the raw second-stage entry point: through the protocol handler (SignRemoteHtlcTx: tx + PSBT carrying the HTLC amount as
+/// the witness UTXO of the input and the witness script of the output) when the channel lives in a handler and the request
+/// can be expressed on the wire (one input, one output: the arm asserts it), through vls-core otherwise
+fn real_htlc_raw(live: &Live, sd: &SetupD, tx: &Transaction, point: &PublicKey, redeem: &ScriptBuf, amount: u64, out_ws: &ScriptBuf, co: &mut CaseOut)
+    -> std::thread::Result<Result<(Signature, EcdsaSighashType), String>> {
+    if let Some(root) = &live.root {
+        if tx.input.len() == 1 && tx.output.len() == 1 {
+            if let Ok(mut psbt) = Psbt::from_unsigned_tx(tx.clone()) {
+                psbt.inputs[0].witness_utxo = Some(TxOut { value: Amount::from_sat(amount), script_pubkey: redeem.to_p2wsh() });
+                psbt.outputs[0].witness_script = Some(out_ws.clone());
+                co.tags.insert("htlcraw:via-handler".into());
+                let r = catch_unwind(AssertUnwindSafe(|| {
+                    let chan = root.for_new_client(1, PubKey(wire_peer()), WIRE_DBID);
+                    let reply = chan.handle(WireMsg::SignRemoteHtlcTx(msgs::SignRemoteHtlcTx {
+                        tx: WithSize(tx.clone()),
+                        psbt: WithSize(PsbtWrapper { inner: psbt }),
+                        wscript: Octets(redeem.to_bytes()),
+                        remote_per_commitment_point: wire_pk(point),
+                        option_anchors: is_anchors(sd.ctype),
+                    })).map_err(handler_err)?;
+                    let rep = reply.as_any().downcast_ref::<msgs::SignTxReply>().ok_or_else(|| "unexpected reply".to_string())?;
+                    let sig = sig_of(&rep.signature.signature.0).ok_or_else(|| "malformed signature".to_string())?;
+                    let typ = EcdsaSighashType::from_consensus(rep.signature.sighash as u32);
+                    Ok((sig, typ))
+                }));
+                co.tags.insert(format!("htlcraw:via-handler:{}", match &r { Ok(Ok(_)) => "accept", Ok(Err(_)) => "reject", Err(_) => "panic" }));
+                return r;
+            }
+        }
+    }
+    catch_unwind(AssertUnwindSafe(|| live.node.with_channel(&live.id, |chan| chan.sign_counterparty_htlc_tx(tx, point, redeem, amount, out_ws))
+        .map(|ts| (ts.sig, ts.typ)).map_err(|e| e.message().to_string())))
+}
+
 fn well_formed(sd: &SetupD, c: &ContentD) -> bool {
     sd.holder_delay <= 2016 && c.htlcs.iter().all(|h| h.0 || h.3 < (1u32 << 31))
 }
@@ -1105,6 +1141,19 @@ impl Group for C04 {
                     match info {
                         None => "skip".into(),
                         Some((f, commit_txid, kt)) if f.3.is_some() && sd.ctype != 'a' => {
+                            // optional 4th token: the request carries the per-commitment point of *another* commitment
+                            // (point id + delta) — the HTLC transactions of a commitment other than the one signed last.
+                            // Then the request goes to the very node that signed this commitment in phase 2 (if it did),
+                            // whose enforcement state records the point of the commitment signed last; keys, scripts and
+                            // the key the signature must verify under are derived from the point of the request.
+                            let delta: u8 = t.get(3).and_then(|x| x.parse().ok()).unwrap_or(0);
+                            let use_kept = delta != 0 && cx.kept.is_some();
+                            let point = make_test_pubkey(sd.point.wrapping_add(delta));
+                            let kt = if delta != 0 {
+                                let holder = if use_kept { cx.kept.as_ref().map(|l| l.holder.clone()) } else { cx.live().ok().map(|l| l.holder.clone()) };
+                                match holder { Some(h) => key_tab(&h, &point), None => kt }
+                            } else { kt };
+                            let label = format!("{}{}", t[2], if delta != 0 { if use_kept { "@other-point-after-p2" } else { "@other-point" } } else { "" });
                             let (offered, amount, hash, cltv) = c.htlcs[f.5];
                             let z = ldk_anchors(sd.ctype);
                             let redeem_t = if offered { Tpl::Off { csv: z, rev: 1, k1: 4, k2: 3, hash, hashlen: 20 } }
@@ -1130,17 +1179,21 @@ impl Group for C04 {
                             }
                             let out_ws = ScriptBuf::from(script_bytes(&out_t, &kt));
                             if matches!(t[2], "delay" | "cdelay" | "rev" | "delayed") { tx.output[0].script_pubkey = out_ws.to_p2wsh(); }
-                            let point = make_test_pubkey(sd.point);
-                            let res = match cx.live() {
-                                Err(_) => None,
-                                Ok(live) => Some(catch_unwind(AssertUnwindSafe(|| live.node.with_channel(&live.id, |chan| chan.sign_counterparty_htlc_tx(&tx, &point, &redeem, amount, &out_ws))))),
+                            let res = if use_kept {
+                                let live = cx.kept.as_ref().unwrap();
+                                Some(real_htlc_raw(live, &sd, &tx, &point, &redeem, amount, &out_ws, &mut co))
+                            } else {
+                                match cx.live() {
+                                    Err(_) => None,
+                                    Ok(live) => Some(real_htlc_raw(live, &sd, &tx, &point, &redeem, amount, &out_ws, &mut co)),
+                                }
                             };
                             match res {
                                 None => "no-channel".into(),
-                                Some(Err(_)) => { cx.live = None; co.tags.insert(format!("htlcraw:panic:{}", t[2])); "reject".into() }
-                                Some(Ok(Err(e))) => { co.tags.insert(format!("htlcraw:reject:{}:{}", t[2], if e.message().contains("sighash mismatch") { "mismatch" } else { "other" })); "reject".into() }
+                                Some(Err(_)) => { if use_kept { cx.kept = None; } else { cx.live = None; } co.tags.insert(format!("htlcraw:panic:{}", label)); "reject".into() }
+                                Some(Ok(Err(e))) => { co.tags.insert(format!("htlcraw:reject:{}:{}", label, if e.contains("sighash mismatch") { "mismatch" } else { "other" })); "reject".into() }
                                 Some(Ok(Ok(ts))) => {
-                                    co.tags.insert(format!("htlcraw:accept:{}", t[2]));
+                                    co.tags.insert(format!("htlcraw:accept:{}", label));
                                     // whatever was accepted: the signature must be over the BOLT-3 second-stage transaction
                                     // determined by the content of the request (outpoint, cltv of an offered HTLC, value)
                                     let lt = if offered { tx.lock_time.to_consensus_u32() } else { 0 };
@@ -1149,12 +1202,12 @@ impl Group for C04 {
                                     let canon = own_htlc_tx(&sd, &kt, tx.input[0].previous_output.txid, tx.input[0].previous_output.vout, lt, cv);
                                     let acp = is_anchors(sd.ctype);
                                     let pk = PublicKey::from_slice(&kt.bytes(4)).unwrap();
-                                    let ver = |h: Option<[u8; 32]>| h.map(|h| Secp256k1::verification_only().verify_ecdsa(&Message::from_digest(h), &ts.sig, &pk).is_ok()).unwrap_or(false);
+                                    let ver = |h: Option<[u8; 32]>| h.map(|h| Secp256k1::verification_only().verify_ecdsa(&Message::from_digest(h), &ts.0, &pk).is_ok()).unwrap_or(false);
                                     let hc = htlc_sighash(&canon, &redeem, amount, acp);
                                     let hs = htlc_sighash(&tx, &redeem, amount, acp);
                                     let expect_ty = if acp { EcdsaSighashType::SinglePlusAnyoneCanPay } else { EcdsaSighashType::All };
-                                    if !ver(hc) || ts.typ != expect_ty {
-                                        co.violations.push(Violation { kind: "htlc-raw-sig-not-canonical".into(), desc: format!("sign_counterparty_htlc_tx ({} of HTLC output {}, policy mode {}) returned a signature that does not verify against the BOLT-3 second-stage transaction{}", t[2], f.0, sd.mode, if ver(hs) { " — it verifies against the caller's transaction" } else { "" }), at: i });
+                                    if !ver(hc) || ts.1 != expect_ty {
+                                        co.violations.push(Violation { kind: "htlc-raw-sig-not-canonical".into(), desc: format!("sign_counterparty_htlc_tx ({} of HTLC output {}, policy mode {}) returned a signature that does not verify, under the HTLC key of the per-commitment point of the request, against the BOLT-3 second-stage transaction{}", label, f.0, sd.mode, if ver(hs) { " — it verifies against the caller's transaction" } else { "" }), at: i });
                                     } else if hs != hc {
                                         co.violations.push(Violation { kind: "mutated-htlc-tx-signed".into(), desc: format!("sign_counterparty_htlc_tx accepted a second-stage transaction ({}) that is not the BOLT-3 one of its content", t[2]), at: i });
                                     }
@@ -1642,11 +1695,16 @@ fn build_case(sd: &SetupD, c: &ContentD, rng: &mut Rng, tier: Tier) -> Option<Ve
             let k = rng.below(n_htlc_outs as u64);
             ops.push(format!("htlcraw {} none", k));
             for _ in 0..3 { ops.push(format!("htlcraw {} {}", k, rng.pick(&muts))); }
+            // the same HTLC transaction, but of another commitment: per-commitment point id + 1..3 (keys, scripts and
+            // the verification key follow the point of the request; sent to the node that signed this commitment)
+            let d = rng.range(1, 3);
+            ops.push(format!("htlcraw {} none {}", k, d));
+            ops.push(format!("htlcraw {} {} {}", k, rng.pick(&muts), d));
         }
     }
     Some(ops)
 }
 
 pub fn groups() -> Vec<Box<dyn Group>> {
-    vec![Box::new(C04)]
+    vec![Box::new(C04), Box::new(parse::C04Parse)]
 }
